@@ -18,6 +18,7 @@ import (
 	"errors"
 	"fmt"
 	"io"
+	"io/fs"
 	"log"
 	"net"
 	"net/netip"
@@ -138,10 +139,15 @@ func (d *Dialer) init(ctx context.Context, err error) (*DialContext, error) {
 	}
 
 	// Check for conditions which are recoverable.
-	var serr *os.SyscallError
+	var (
+		serr *os.SyscallError
+		perr *fs.PathError
+	)
 	switch {
-	case errors.As(err, &serr):
-		if errors.Is(serr, os.ErrPermission) {
+	case errors.As(err, &serr), errors.As(err, &perr):
+		// System call errors, including those package os reports for files
+		// such as an interface's sysctls when the interface is removed.
+		if errors.Is(err, os.ErrPermission) {
 			// Permission denied means this will never work, so exit immediately.
 			return nil, err
 		}
